@@ -35,7 +35,10 @@ fn report<'a, B: DecisionNNFBuilder<'a>>(b: &'a B, cnf: &rsdd::repr::Cnf, n: usi
     )
 }
 
-pub fn td_line(rng: &mut Rng, maxvars: usize) -> String {
+/// CNFs for top-down compilation: random ones and the directed families (unit clauses over an
+/// unsatisfiable core, parity constraints, guarded multiplexers); the flag says that a family
+/// aimed at the hash-identified store was used
+pub fn gen_td_raw(rng: &mut Rng, maxvars: usize) -> (RawCnf, bool) {
     let mut raw = gen_cnf(rng, maxvars, 2 * maxvars + 2, true);
     // directed family: unit clauses on top of an unsatisfiable core whose refutation needs a
     // decision (all four sign combinations over two variables)
@@ -101,6 +104,11 @@ pub fn td_line(rng: &mut Rng, maxvars: usize) -> String {
             raw.push(c2);
         }
     }
+    (raw, parity)
+}
+
+pub fn td_line(rng: &mut Rng, maxvars: usize) -> String {
+    let (raw, parity) = gen_td_raw(rng, maxvars);
     let cnf = to_cnf(&raw);
     let n = cnf.num_vars();
     let order = if rng.chance(1, 3) { (0..n).collect() } else { rng.perm(n) };
